@@ -6,10 +6,12 @@ import subprocess
 from . import common
 
 LEAN_TARGETS = ["TsrunVerif.Props.C07"]
-THEOREMS = ["TsrunVerif.Susp." + t for t in ["restore_save", "run_mode_independent", "run_schedules_agree", "run_host_independent", "lossy_not_roundtrip", "lookup_perm", "fields_saved"]]
+THEOREMS = ["TsrunVerif.Susp." + t for t in ["restore_save", "run_mode_independent", "run_schedules_agree", "run_host_independent", "lossy_not_roundtrip", "lookup_perm", "fields_saved", "fields_faithful"]]
 ASSUMPTIONS = [
     "M-Susp lists the fields of BytecodeVM / TrampolineFrame that determine how execution continues and transcribes save_state / from_saved_state / restore_suspended_vm field for field; the field lists of the four "
-    "Rust structs are re-extracted by bin/extract on every run (Gen/VmFields.lean) and every field must be saved or be on the reviewed transient list (obligation fields_saved)",
+    "Rust structs are re-extracted by bin/extract on every run (Gen/VmFields.lean) and every field must be saved or be on the reviewed transient list (obligation fields_saved); "
+    "the four record literals of save_state / from_saved_state are re-read too: every field must take its value from the field of the same name of the same record - frame.x, self.x, saved.x, state.x - "
+    "up to the reviewed renamings (obligation fields_faithful), which is what makes the Rust code an instance of the model's save / restore",
     "the program is an arbitrary deterministic continuation function in the model; that the real VM's continuation depends on nothing outside the listed fields (e.g. interpreter-level registries) is "
     "what the differential part exercises: generated programs with awaits at every syntactic position, host-suspending order() under schedules versus an in-program stub",
     "error responses are delivered by the host as strings ('TypeError: m'); the stub throws the same string - the shape of error responses is not part of this property",
@@ -27,8 +29,9 @@ const lines = []; rl.on('line', l => lines.push(l)); rl.on('close', async () => 
 
 
 class Gen:
-    def __init__(self, rng):
+    def __init__(self, rng, force=None):
         self.rng = rng
+        self.force = force          # the first statement is the sync-caller-frame construct number `force`
         self.k = 0
         self.helpers = []
         self.depth = 0
@@ -86,6 +89,8 @@ class Gen:
         self.depth += 1
         try:
             k = rng.randrange(19 if self.depth < 4 else 4)
+            if self.force is not None:
+                k = 15
             if k == 18:
                 # an async function started from a callback that a NATIVE built-in invokes (map / forEach / sort / valueOf):
                 # its await has to suspend while the native frame is on the stack (known finding C07-await-under-native-frame)
@@ -150,12 +155,24 @@ class Gen:
                 # methods, derived constructor before/after super, getter, method, function using `arguments`): after the
                 # resumption each caller goes on with its own this / new.target / arguments / locals
                 n = self.val()
-                which = rng.randrange(6)
+                which = rng.randrange(7)
+                if self.force is not None:
+                    which, self.force = self.force, None
+                if which == 6:
+                    # three levels: the MIDDLE constructor starts the load before its own super(); after the resumption each
+                    # constructor of the chain must still know which class it belongs to (super() resolves per frame)
+                    self.helpers.append("const trc%d = []; class A%d { constructor(x) { this.x = x; trc%d.push('A'); } } "
+                                        "class Bm%d extends A%d { constructor(hp, x) { const p = awaitIt(hp); super(x + 1); this.p = p; trc%d.push('B'); } } "
+                                        "class Cm%d extends Bm%d { constructor(hp) { super(hp, %d); trc%d.push('C'); this.nt = this.constructor === Cm%d; } }"
+                                        % (n, n, n, n, n, n, n, n, rng.randint(1, 5), n, n))
+                    # the host promise is obtained first: whether `await hp` inside the constructor chain suspends depends on the schedule
+                    return ("{ const hp%d = order({v: %d, p: true}); const c = new Cm%d(hp%d); acc += 'h' + c.x + c.nt + trc%d.join('') + (await c.p) + (c instanceof A%d); }"
+                            % (n, n, n, n, n, n))
                 if which == 0:
                     self.helpers.append("class K%d { #p() { return 7; } f = startLoad(%d); g = 2; constructor(a) { this.a = a; this.sum = this.#p() + this.g + a; } get me() { return this; } }" % (n, n))
                     return "{ const k = new K%d(%d); acc += 'k' + k.sum + (k.me === k) + (await k.f); }" % (n, rng.randint(1, 5))
                 if which == 1:
-                    self.helpers.append("class B%d { constructor(x) { this.x = x; this.nt = (new.target === B%d) ? 'base' : 'derived'; } } class D%d extends B%d { #q = 3; constructor() { const p = startLoad(%d); super(%d); this.p = p; this.t = new.target === D%d; this.r = this.#q + this.x; } }"
+                    self.helpers.append("class B%d { constructor(x) { this.x = x; this.nt = (this.constructor === B%d) ? 'base' : 'derived'; } } class D%d extends B%d { #q = 3; constructor() { const p = startLoad(%d); super(%d); this.p = p; this.t = this.constructor === D%d; this.r = this.#q + this.x; } }"
                                         % (n, n, n, n, n, rng.randint(1, 5), n))
                     return "{ const d = new D%d(); acc += 'd' + d.nt + d.t + d.r + (await d.p); }" % n
                 if which == 2:
@@ -197,6 +214,7 @@ class Gen:
                "class Box { constructor(x) { this.x = x; } async get() { const t = this; await order({v: 0}); return t === this ? this.x : -1; } }\n"
                "const obj = { base: 7, async m(a) { const r = a + %s; return r + this.base; } };\n"
                "function startLoad(x) { return loadAsync(x); } async function loadAsync(x) { const w = await order({v: x, p: true}); return w + x; }\n"
+               "async function awaitIt(p) { const w = await p; return w + 1; }\n"
                "async function helper(n, x) { if (n <= 0) { return x + %s; } const y = await helper(n - 1, x); return y + 1; }\n" % (self.aw(), self.aw()))
         return pre + "\n".join(self.helpers) + "\nasync function main() {\n" + body + "\nreturn acc + '#' + fs.map(f => f()).join('');\n}\n"
 
@@ -237,6 +255,11 @@ def run(ctx):
     import random as _r
     for i in range(n):
         g = Gen(_r.Random(rng.randrange(2 ** 62)))
+        progs.append(("generated", g.program()))
+        sites.append(sorted(g.sites))
+    # every kind of synchronous caller frame at least once per run, whatever the random draws
+    for w in range(7):
+        g = Gen(_r.Random(rng.randrange(2 ** 62)), force=w)
         progs.append(("generated", g.program()))
         sites.append(sorted(g.sites))
     progs += [("corpus", c) for c in CORPUS]
@@ -285,6 +308,10 @@ def run(ctx):
             if got_node is not None and g.startswith("C:") and unesc(g) != got_node[pi] and pi not in reported:
                 reported.add(pi)
                 ctx.prop_fail("reference: the stub variant behaves differently on tsrun and on the reference engine", {"program": p[:3000], "tsrun": g[:400], "node": got_node[pi][:400]})
+            elif got_node is not None and g.startswith("ERR:SyntaxError") and got_node[pi].startswith("C:") and pi not in reported:
+                # a program the reference engine runs but tsrun cannot parse is dead weight for every schedule: the generator must not emit it
+                reported.add(pi)
+                ctx.corr_fail("the generator emitted a program tsrun rejects with a SyntaxError (all schedules fail alike, nothing is compared)", {"program": p[:3000]}, got_node[pi][:200], g[:300])
             continue
         if g != base.get(pi) and pi not in reported:
             reported.add(pi)
